@@ -1,17 +1,12 @@
 #!/bin/sh
-# tools/seed_matrix_par.sh [P] : quick check of every seeded change (scratch worktrees), P at a time; writes seeded/RESULTS.jsonl
-P=${1:-5}
-cd /verif
-ls -d seeded/C??-? | xargs -P $P -I{} sh -c 'tools/seed_check.sh {} 2>&1 | grep "^SEED"' > /tmp/seed_matrix.out
-python3 - <<'PY'
-import re, json
-rows = []
-for ln in open('/tmp/seed_matrix.out'):
-    m = re.match(r'SEED (\S+) (\S+) rc=(\d+) violations=(\d+) no_input=(\d+) sig=(.*)', ln.strip())
-    if m:
-        rows.append({'seed': m.group(1), 'property': m.group(2), 'exit': int(m.group(3)), 'violations': int(m.group(4)),
-                     'no_failing_input': int(m.group(5)), 'signatures': m.group(6)})
-rows.sort(key=lambda r: r['seed'])
-open('/verif/seeded/RESULTS.jsonl', 'w').write(''.join(json.dumps(r) + '\n' for r in rows))
-print(len(rows), 'seeds;', sum(r['exit'] == 1 for r in rows), 'caught;', [r['seed'] for r in rows if r['exit'] != 1])
-PY
+# tools/seed_matrix_par.sh [jobs] : every seeded change against the quick check of its property, in scratch worktrees of /repo
+# (FEMTO_REPO) with scratch output (VERIF_OUT), several at a time; run from a checkout of /verif (e.g. a `vp run` snapshot: the
+# Coq development is built first).  One line per seed in /tmp/seedmx/results.txt.
+J=${1:-5}
+ROOT=$(cd "$(dirname "$0")/.." && pwd)
+cd "$ROOT/coq" && coq_makefile -f _CoqProject -o Makefile >/dev/null && timeout 3000 make -j16 >/dev/null 2>&1
+cd "$ROOT"
+mkdir -p /tmp/seedmx; : > /tmp/seedmx/results.txt
+for d in seeded/C*-*; do echo $d; done | xargs -P $J -I{} sh tools/seed_one.sh "$ROOT" {}
+sort /tmp/seedmx/results.txt > /tmp/seedmx/results_sorted.txt
+echo "done: $(wc -l < /tmp/seedmx/results.txt) seeds; not caught: $(grep -c 'rc=0' /tmp/seedmx/results.txt); patch failures: $(grep -c 'PATCH' /tmp/seedmx/results.txt)"
